@@ -2043,3 +2043,82 @@ def admin_context_lists_all_projects(ctx, rule):
                    ctx.construct(f, extra='whenever there is a context'),
                    'the admin override is additionally conditioned: %s'
                    % facts, ctx.loc(f))
+
+
+def rerun_keeps_triggered_by(ctx, rule):
+    """A re-run task is still the task its parent started: the inbound
+    context of a non-join task is found through
+    runtime_context['triggered_by'] (direct_workflow._get_upstream_task_
+    executions filters by those ids and otherwise falls back to the FIRST
+    inbound task name).  Workflow.rerun cleans the runtime context of the
+    task (policy counters, with-items bookkeeping): the clean-up has to keep
+    'triggered_by' - read before the clear, stored back after it, under no
+    condition but the value being there."""
+    prog = ctx.prog
+    f = prog.func('mistral.engine.tasks.Task.cleanup_runtime_context')
+    cfg = ctx.cfg(f)
+    clears = [(n, c) for n, c in cfg.calls(
+        lambda c: isinstance(c.func, ast.Attribute) and
+        c.func.attr == 'clear' and not c.args)]
+    resets = [x for x in own_nodes(f.node) if isinstance(x, ast.Assign) and
+              any((dotted(t) or '').endswith('runtime_context')
+                  for t in x.targets) and
+              isinstance(x.value, (ast.Dict, ast.Call, ast.Constant))
+              and not isinstance(x.targets[0], ast.Name)]
+    if not clears and not resets:
+        drops = [x for x in own_nodes(f.node) if (
+            isinstance(x, ast.Call) and U.call_name(x) in ('pop', 'popitem')
+            and (not x.args or (isinstance(x.args[0], ast.Constant) and
+                                x.args[0].value == 'triggered_by'))) or (
+            isinstance(x, ast.Delete) and 'triggered_by' in norm(x))]
+        rule.check(not drops, ctx.construct(f, extra='triggered_by kept'),
+                   'the clean-up of a re-run task drops triggered_by',
+                   ctx.loc(f))
+        return
+    if resets:
+        rule.fail(ctx.construct(f, extra='triggered_by kept'),
+                  'the runtime context of a re-run task is replaced as a '
+                  'whole: triggered_by is lost and the task takes the '
+                  'context of the first inbound task name', ctx.loc(f))
+        return
+    saved = {}
+    for x in own_nodes(f.node):
+        if isinstance(x, ast.Assign) and isinstance(x.targets[0], ast.Name):
+            v = x.value
+            if (isinstance(v, ast.Call) and
+                    U.call_name(v) in ('get', 'pop') and
+                    v.args and isinstance(v.args[0], ast.Constant) and
+                    v.args[0].value == 'triggered_by') or (
+                    isinstance(v, ast.Subscript) and
+                    isinstance(v.slice, ast.Constant) and
+                    v.slice.value == 'triggered_by'):
+                saved[x.targets[0].id] = cfg.stmt_node(x)
+    ok = False
+    why = 'triggered_by is not read before the context is cleared'
+    for name, rn in saved.items():
+        if not all(cfg.dominates(rn, cn) for cn, _c in clears):
+            continue
+        why = 'triggered_by is not stored back after the clear'
+        for x in own_nodes(f.node):
+            if isinstance(x, ast.Assign) and \
+                    isinstance(x.targets[0], ast.Subscript) and \
+                    isinstance(x.targets[0].slice, ast.Constant) and \
+                    x.targets[0].slice.value == 'triggered_by' and \
+                    isinstance(x.value, ast.Name) and x.value.id == name:
+                sn = cfg.stmt_node(x)
+                after = all(cfg.paths_between(cn, sn) for cn, _c in clears)
+                facts = [(norm(a), t) for a, t in U.guard_atoms(cfg, sn)]
+                extra = [ft for ft in facts
+                         if ft not in [(name, True)] and
+                         not any(ft in [(norm(a), t) for a, t in
+                                        U.guard_atoms(cfg, cn)]
+                                 for cn, _c in clears)]
+                if after and not extra:
+                    ok = True
+                elif after:
+                    why = 'storing triggered_by back is conditioned on %s' \
+                        % extra
+    rule.check(ok, ctx.construct(f, extra='triggered_by kept'),
+               '%s: after a rerun a task with several possible parents '
+               'takes its inbound context from the first inbound task name '
+               'instead of the task that started it' % why, ctx.loc(f))
